@@ -292,14 +292,14 @@ func drawVersions(rt *rapid.T, with10 bool) []int32 {
 }
 
 func TestC11_Handshake(t *testing.T) {
-	ev.Rule(c11, "handshake family: raw TCP peer sends a drawn handshake variation (no/wrong/partial protocol line, first frame that is not a connect request, empty or unknown-only version list, unknown compression ids, lz4 offered then plain bytes, truncated request, zero-length frame, garbage), then tries to open a channel carrying a per-case marker; a well-behaved real client runs echo traffic on another connection throughout; oracle: handler invocations with that marker are 0 unless the handshake completed with the protocol line and a common version, a refused or violating connection is closed (EOF within 10 s) once the complete violating line/frame was sent, the healthy client keeps working, the server keeps running; non-trivial = every variant that must be refused; distinct by sent bytes")
+	ev.Rule(c11, "handshake family: raw TCP peer sends a drawn handshake variation (no/wrong/partial protocol line, first frame that is not a connect request (also: a valid request body under another frame code or without a code), empty or unknown-only version list, unknown compression ids, lz4 offered then plain bytes, truncated request, zero-length frame, garbage), then tries to open a channel carrying a per-case marker; a well-behaved real client runs echo traffic on another connection throughout; oracle: handler invocations with that marker are 0 unless the handshake completed with the protocol line and a common version, a refused or violating connection is closed (EOF within 10 s) once the complete violating line/frame was sent, the healthy client keeps working, the server keeps running; non-trivial = every variant that must be refused; distinct by sent bytes")
 	e, err := newC11Env()
 	if err != nil {
 		t.Fatalf("infrastructure: %v", err)
 	}
 	defer e.close()
 	variants := []string{"no-line", "wrong-line", "near-miss-line", "http-line", "partial-line", "first-frame-open", "first-frame-garbage-msg", "empty-versions", "unknown-versions",
-		"mixed-versions", "unknown-compression", "lz4-then-plain", "truncated-request", "zero-length-frame", "nonrequest-then-valid-request", "garbage", "response-as-request", "valid"}
+		"mixed-versions", "unknown-compression", "lz4-then-plain", "truncated-request", "zero-length-frame", "nonrequest-then-valid-request", "request-body-under-another-code", "garbage", "response-as-request", "valid"}
 	ev.CheckScaled(t, c11, 1, 1, func(rt *rapid.T) {
 		v := variants[rapid.IntRange(0, len(variants)-1).Draw(rt, "variant")]
 		mk := marker()
@@ -374,6 +374,22 @@ func TestC11_Handshake(t *testing.T) {
 			}
 			send = append([]byte(netfx.ProtocolLine), firstFrame...)
 			send = append(send, req([]int32{10}, nil)...)
+		case "request-body-under-another-code":
+			// what a frame is is said by its code: a first frame whose code is not "connect request" is not a
+			// connect request, whatever bodies it carries. A complete, valid request body travels under the
+			// code of an open / data / close / window / batch / response frame, an undefined code, or no code.
+			n := netfx.ConnectRequestMsg([]int32{10}, nil)
+			codes := []int32{0, netfx.CodeConnectResponse, netfx.CodeBatch, netfx.CodeOpen, netfx.CodeClose, netfx.CodeData, netfx.CodeWindow, 4, 99, -1, 257}
+			if k := rapid.IntRange(0, len(codes)).Draw(rt, "othercode"); k == len(codes) {
+				n.Fields = n.Fields[1:] // no code field at all
+			} else {
+				n.Fields[0] = gen.F(1, gen.Int32(codes[k]))
+				if codes[k] == netfx.CodeOpen && rapid.Bool().Draw(rt, "withopenbody") {
+					// and the body that belongs to the code as well
+					n.Fields = append(n.Fields, netfx.OpenMsg(netfx.MakeID(c11seq.Load()+2000000), 1<<20, []byte(mk+"-first")).Fields[1])
+				}
+			}
+			send = append([]byte(netfx.ProtocolLine), frameBytes(netfx.Encode(n))...)
 		case "garbage":
 			send = rapid.SliceOfN(rapid.Byte(), 1, 64).Draw(rt, "garbage")
 			mustClose = false // may not contain a newline: server legitimately keeps waiting for the line
